@@ -18,6 +18,7 @@ import (
 	"encoding/json"
 	"fmt"
 	"os"
+	"sort"
 	"strconv"
 	"strings"
 	"time"
@@ -29,7 +30,14 @@ import (
 
 var prefixes = []string{"Vq", "Zk", "Mw", "Ty", "Hx"}
 
+// bareNames is the pseudo-seed of the concretisation with the bare role names (one-letter
+// class names A, I, D, S ...), always run next to the seed-selected prefix.
+const bareNames = int64(-1)
+
 func pfxOf(seed int64) string {
+	if seed == bareNames {
+		return ""
+	}
 	if seed < 0 {
 		seed = -seed
 	}
@@ -48,6 +56,39 @@ type rec struct {
 	Outcomes map[string]int64 `json:"outcomes,omitempty"`
 	Counters map[string]int64 `json:"counters,omitempty"`
 	Err      string           `json:"err,omitempty"`
+	VF       *visFail         `json:"vf,omitempty"`
+}
+
+// visFail is one failing visibility cell reduced to what identifies the defect.
+type visFail struct {
+	Tag, Fam, Op, Mod, Rel, Clause string
+}
+
+// pathFamily groups syntactic paths that are one access path of the language.
+func pathFamily(p string) string {
+	switch p {
+	case "->$n", "->{}":
+		return "->dyn"
+	case "cuf[]", "[]()":
+		return "callable-array"
+	case "C::", "Sub::", "$cn::", "$o::":
+		return "Class::"
+	case "cuf::", "cuf[C]":
+		return "cuf-static"
+	}
+	return p
+}
+
+// relClass: where the accessing code stands: own class, the declaring class's lineage
+// (ancestor or descendant), or outside (unrelated class or no class).
+func relClass(rel string) string {
+	switch rel {
+	case "own":
+		return "own"
+	case "ancestor", "descendant":
+		return rel
+	}
+	return "outside"
 }
 
 type shardArg struct {
@@ -145,6 +186,14 @@ func evalVisCell(st *stats, sh *shapeDef, s site, c cell, seed int64) (clause, d
 		return "crash", res.PanicKey, script, o
 	}
 	clause = judge(sh, s, &c, o)
+	if clause == "crash" {
+		// a Go panic converted by try: the bare form names the frame
+		bres := st.run(visScript(sh, s, []cell{c}, cn, true))
+		if bres.Kind == "panic" {
+			return "crash", bres.PanicKey, script, o
+		}
+		return "crash", "caught-panic:" + runner.PanicClass(o.Msg), script, o
+	}
 	if clause == "" && o.Status == "denied" {
 		bres := st.run(visScript(sh, s, []cell{c}, cn, true))
 		if cl, k := bareVerdict(bres); cl != "" {
@@ -195,7 +244,12 @@ func visWorker(w *pool.W, arg json.RawMessage) {
 	for i := range cells {
 		c := &cells[i]
 		if c.M.mod == "public" {
-			control[ck(c)] = judge(sh, s, c, obs[c.ID]) == ""
+			o := obs[c.ID]
+			if !o.Present {
+				_, _, _, o = evalVisCell(st, sh, s, *c, a.Seed)
+				obs[c.ID] = o
+			}
+			control[ck(c)] = judge(sh, s, c, o) == ""
 		}
 	}
 	failed := map[string]bool{}
@@ -216,12 +270,25 @@ func visWorker(w *pool.W, arg json.RawMessage) {
 			continue
 		}
 		cl := judge(sh, s, c, o)
+		if cl == "no-error" && !control[ck(c)] {
+			// the path does not reach even the public member here (e.g. a silent no-op): it says
+			// nothing about this member
+			st.counters["deny-cells-skipped(no effect, public control failed too)"]++
+			continue
+		}
 		st.outcomes[exp+"/"+c.Op+"/"+o.Status+"/"+cl]++
+		tk := c.M.tag() + "|" + pathFamily(c.Path) + "|" + c.Op
+		if exp == "deny" && c.Op != "isset" && control[ck(c)] {
+			st.counters["denytotal|"+tk]++
+		}
 		needIso := cl != "" || o.Status == "denied"
 		if !needIso {
 			continue
 		}
 		icl, det, iscript, io := evalVisCell(st, sh, s, *c, a.Seed)
+		if icl == "wrong-allow" && control[ck(c)] {
+			st.counters["denywrong|"+tk]++
+		}
 		if icl != cl {
 			st.counters["batch-vs-isolated-differs"]++
 			if icl == "" {
@@ -231,27 +298,33 @@ func visWorker(w *pool.W, arg json.RawMessage) {
 		if icl == "" {
 			continue
 		}
-		key := visKey(sh, s, c, icl)
-		if icl == "crash" {
-			key = "crash:" + det
-		}
 		if icl == "bare-mismatch" {
 			w.Emit(rec{Kind: "harness", Err: id + " cell " + c.Body + ": " + det})
 			continue
 		}
 		st.counters["failing-cells"]++
-		if failed[key] {
-			continue
-		}
-		failed[key] = true
 		sz := len(iscript)
 		if sh.name == "flat" {
 			sz /= 2
 		}
 		ss := s
-		w.Emit(rec{Kind: "fail", Key: key, Clause: icl, Size: sz,
-			Case:   caseDesc{Family: "vis", Seed: a.Seed, Shape: sh.name, Site: &ss, SiteS: s.String(), Recv: c.Recv, Member: c.M.name, Path: c.Path, Op: c.Op, Script: iscript, Expect: exp},
-			Detail: fmt.Sprintf("site %s (lexical class %s is %s of declaring class), %s %s member %s, receiver %s, `%s`\nexpected %s by the rule table; %s", s, orNone(s.lex), relation(sh, s.lex), c.M.mod, c.M.tag(), c.M.name, c.Recv, c.Body, exp, obsString(io))})
+		cs := caseDesc{Family: "vis", Seed: a.Seed, Shape: sh.name, Site: &ss, SiteS: s.String(), Recv: c.Recv, Member: c.M.name, Path: c.Path, Op: c.Op, Script: iscript, Expect: exp}
+		detail := fmt.Sprintf("site %s (lexical class %s: %s w.r.t. the declaring class), %s %s member %s, receiver %s, `%s`\nexpected %s by the rule table; %s", s, orNone(s.lex), relation(sh, s.lex), c.M.mod, c.M.tag(), c.M.name, c.Recv, c.Body, exp, obsString(io))
+		if icl == "crash" {
+			key := "crash:" + det
+			if !failed[key] {
+				failed[key] = true
+				w.Emit(rec{Kind: "fail", Key: key, Clause: icl, Size: sz, Case: cs, Detail: detail})
+			}
+			continue
+		}
+		vf := visFail{Tag: c.M.tag(), Fam: pathFamily(c.Path), Op: c.Op, Mod: c.M.mod, Rel: relClass(relation(sh, s.lex)), Clause: icl}
+		k := fmt.Sprint(vf)
+		if failed[k] {
+			continue
+		}
+		failed[k] = true
+		w.Emit(rec{Kind: "vfail", Clause: icl, Size: sz, VF: &vf, Case: cs, Detail: detail})
 	}
 	if a.A == 0 && a.B == 3 && len(cells) > 0 {
 		w.Emit(rec{Kind: "sample", Case: map[string]any{"family": "vis", "site": s.String(), "cells": len(cells), "first_cell": cells[0].Body, "first_observed": obs[cells[0].ID]}})
@@ -296,6 +369,13 @@ func evalTypeCell(st *stats, b boundary, t declType, vi int, seed int64) (clause
 		return "crash", res.PanicKey, script, o
 	}
 	clause = judgeType(b, t, valKinds[vi], o, n)
+	if clause == "crash" {
+		bres := st.run(typeScript(b, t, []int{vi}, n, true))
+		if bres.Kind == "panic" {
+			return "crash", bres.PanicKey, script, o
+		}
+		return "crash", "caught-panic:" + runner.PanicClass(o.Msg), script, o
+	}
 	if clause == "" && o.Status == "denied" {
 		bres := st.run(typeScript(b, t, []int{vi}, n, true))
 		if cl, k := bareVerdict(bres); cl != "" {
@@ -551,11 +631,16 @@ func summariseTypes(fails []typeFail, c *ev.Check, seed int64) {
 		perB[f.B][cellK{f.T, f.V}] = f.Clause
 	}
 	st := newStats()
-	emit := func(key, clause string, b, t, v int) {
-		_, det, script, io := evalTypeCell(st, boundaries[b], declTypes[t], v, seed)
-		_ = det
-		c.Fail(key, clause, len(script), caseDesc{Family: "type", Seed: seed, Bound: boundaries[b].name, Type: declTypes[t].src, Val: valKinds[v].name, Script: script},
-			fmt.Sprintf("boundary %s, declared type %s, value %s (%s): reference rule says accept=%v; observed %s", boundaries[b].name, declTypes[t].src, valKinds[v].name, valKinds[v].src, accepts(declTypes[t], valKinds[v]), obsString(io)))
+	type sk struct{ group, clause, sum string }
+	type repT struct{ b, t, v int }
+	bnds := map[sk][]string{}
+	rep := map[sk]repT{}
+	add := func(group, clause, sum string, b, t, v int) {
+		k := sk{group, clause, sum}
+		bnds[k] = append(bnds[k], boundaries[b].name)
+		if _, ok := rep[k]; !ok {
+			rep[k] = repT{b, t, v}
+		}
 	}
 	for b := range boundaries {
 		fs := perB[b]
@@ -563,7 +648,6 @@ func summariseTypes(fails []typeFail, c *ev.Check, seed int64) {
 			continue
 		}
 		bd := boundaries[b]
-		// expected-reject cells of this boundary, by value base
 		rejTotal, rejWrong := 0, 0
 		baseTotal, baseWrong := map[string]int{}, map[string]int{}
 		for ti, t := range declTypes {
@@ -583,26 +667,29 @@ func summariseTypes(fails []typeFail, c *ev.Check, seed int64) {
 			}
 		}
 		done := map[cellK]bool{}
-		if rejWrong == rejTotal {
-			for k, cl := range fs {
-				if cl == "wrong-accept" {
-					done[k] = true
+		first := func(base string) (int, int) {
+			rt, rv := -1, -1
+			for ti := range declTypes {
+				for vi := range valKinds {
+					k := cellK{ti, vi}
+					if fs[k] == "wrong-accept" && (base == "" || valKinds[vi].base == base) {
+						done[k] = true
+						if rt < 0 {
+							rt, rv = ti, vi
+						}
+					}
 				}
 			}
-			emit("type:"+bd.name+":unchecked", "wrong-accept", b, 0, 6)
+			return rt, rv
+		}
+		if rejWrong == rejTotal {
+			t, v := first("")
+			add(bd.group, "wrong-accept", "unchecked", b, t, v)
 		} else {
 			for _, base := range sortedKeys(baseTotal) {
 				if baseWrong[base] == baseTotal[base] && baseTotal[base] > 0 {
-					var rt, rv = -1, -1
-					for k, cl := range fs {
-						if cl == "wrong-accept" && valKinds[k.v].base == base {
-							done[k] = true
-							if rt < 0 || k.t < rt || (k.t == rt && k.v < rv) {
-								rt, rv = k.t, k.v
-							}
-						}
-					}
-					emit("type:"+bd.name+":accepts-"+base+"-for-any-type", "wrong-accept", b, rt, rv)
+					t, v := first(base)
+					add(bd.group, "wrong-accept", "accepts-"+base+"-for-any-type", b, t, v)
 				}
 			}
 		}
@@ -613,9 +700,83 @@ func summariseTypes(fails []typeFail, c *ev.Check, seed int64) {
 				if !ok || done[k] {
 					continue
 				}
-				emit(fmt.Sprintf("type:%s:%s:%s<-%s", bd.name, cl, declTypes[ti].src, valKinds[vi].name), cl, b, ti, vi)
+				add(bd.group, cl, fmt.Sprintf("%s:%s<-%s", cl, declTypes[ti].src, valKinds[vi].name), b, ti, vi)
 			}
 		}
+	}
+	for k, bs := range bnds {
+		sort.Strings(bs)
+		key := fmt.Sprintf("type:%s:%s[%s]", k.group, k.sum, strings.Join(bs, ","))
+		r := rep[k]
+		_, _, script, io := evalTypeCell(st, boundaries[r.b], declTypes[r.t], r.v, seed)
+		c.Fail(key, k.clause, len(script), caseDesc{Family: "type", Seed: seed, Bound: boundaries[r.b].name, Type: declTypes[r.t].src, Val: valKinds[r.v].name, Script: script},
+			fmt.Sprintf("boundary %s, declared type %s, value %s (%s): reference rule says accept=%v; observed %s", boundaries[r.b].name, declTypes[r.t].src, valKinds[r.v].name, valKinds[r.v].src, accepts(declTypes[r.t], valKinds[r.v]), obsString(io)))
+	}
+}
+
+// summariseVis turns failing visibility cells into finding keys. Per (member category, path
+// family, op, clause) the failing (modifier @ site class) set is named:
+//
+//	no-check              every cell that must be denied is allowed (the path has no check)
+//	unchecked             protected and private members are reachable from outside the lineage
+//	private-unchecked     private members are reachable from outside, protected are not
+//	private-as-protected  only private members leak, only to ancestors/descendants
+//	<clause>[mod@site,..] anything else
+//
+// and groups with the same name are merged per member category: vis:<category>:<name>[<family>:<ops>,...]
+func summariseVis(fails []rec, counters map[string]int64, c *ev.Check) {
+	type gk struct{ tag, fam, op, clause string }
+	groups := map[gk]map[string]bool{}
+	reps := map[gk]rec{}
+	better := func(a, b rec) bool { return a.Size < b.Size || (a.Size == b.Size && a.Detail < b.Detail) }
+	for _, r := range fails {
+		f := r.VF
+		k := gk{f.Tag, f.Fam, f.Op, f.Clause}
+		if groups[k] == nil {
+			groups[k] = map[string]bool{}
+		}
+		groups[k][f.Mod+"@"+f.Rel] = true
+		if old, ok := reps[k]; !ok || better(r, old) {
+			reps[k] = r
+		}
+	}
+	type mk struct{ tag, clause, sum string }
+	merged := map[mk]map[string][]string{} // -> family -> ops
+	mrep := map[mk]rec{}
+	for k, set := range groups {
+		sum := k.clause + "[" + strings.Join(sortedKeys(set), ",") + "]"
+		if k.clause == "wrong-allow" {
+			tk := k.tag + "|" + k.fam + "|" + k.op
+			switch {
+			case counters["denytotal|"+tk] > 0 && counters["denytotal|"+tk] == counters["denywrong|"+tk]:
+				sum = "no-check"
+			case set["private@outside"] && set["protected@outside"]:
+				sum = "unchecked"
+			case set["private@outside"]:
+				sum = "private-unchecked"
+			case !set["protected@outside"] && !set["protected@ancestor"] && !set["private@own"] && (set["private@ancestor"] || set["private@descendant"]):
+				sum = "private-as-protected"
+			}
+		}
+		m := mk{k.tag, k.clause, sum}
+		if merged[m] == nil {
+			merged[m] = map[string][]string{}
+		}
+		merged[m][k.fam] = append(merged[m][k.fam], k.op)
+		if old, ok := mrep[m]; !ok || better(reps[k], old) {
+			mrep[m] = reps[k]
+		}
+	}
+	for m, fams := range merged {
+		var parts []string
+		for _, f := range sortedKeys(fams) {
+			ops := fams[f]
+			sort.Strings(ops)
+			parts = append(parts, f+":"+strings.Join(ops, "+"))
+		}
+		key := fmt.Sprintf("vis:%s:%s[%s]", m.tag, m.sum, strings.Join(parts, ","))
+		r := mrep[m]
+		c.Fail(key, m.clause, r.Size, r.Case, r.Detail)
 	}
 }
 
@@ -629,6 +790,9 @@ func main() {
 	if len(os.Args) > 3 && os.Args[1] == "dumpvis" {
 		a, _ := strconv.Atoi(os.Args[2])
 		b, _ := strconv.Atoi(os.Args[3])
+		if os.Getenv("PROBE_BARE") != "" {
+			probeSeed = bareNames
+		}
 		dumpVis(a, b, len(os.Args) > 4)
 		runner.Cleanup()
 		return
@@ -645,12 +809,16 @@ func main() {
 	c.SetBudget(5*time.Minute, 30*time.Minute)
 	// quick: seed-selected names; thorough: the same matrices under every name prefix (the
 	// matrices themselves are already complete in quick)
-	seeds := []int64{c.Seed}
+	if c.Seed < 0 {
+		c.Seed = -c.Seed
+	}
+	seeds := []int64{c.Seed, bareNames}
 	if !c.Quick() {
 		seeds = nil
 		for i := range prefixes {
 			seeds = append(seeds, c.Seed+int64(i))
 		}
+		seeds = append(seeds, bareNames)
 	}
 	var shards []pool.Shard
 	for _, sd := range seeds {
@@ -674,6 +842,7 @@ func main() {
 	outcomes := map[string]int64{}
 	counters := map[string]int64{}
 	tfails := map[int64][]typeFail{}
+	var vfails []rec
 	pool.Run(shards, pool.Options{}, func(si int, rb json.RawMessage) {
 		var r rec
 		json.Unmarshal(rb, &r)
@@ -689,6 +858,8 @@ func main() {
 			}
 		case "fail":
 			c.Fail(r.Key, r.Clause, r.Size, r.Case, r.Detail)
+		case "vfail":
+			vfails = append(vfails, r)
 		case "tfail":
 			b, _ := json.Marshal(r.Case)
 			var tf typeFail
@@ -706,6 +877,7 @@ func main() {
 	for _, sd := range seeds {
 		summariseTypes(tfails[sd], c, sd)
 	}
+	summariseVis(vfails, counters, c)
 	for k, v := range outcomes {
 		for i := int64(0); i < 1; i++ {
 			c.Outcome(k)
@@ -713,7 +885,13 @@ func main() {
 		_ = v
 	}
 	c.Set("outcome_cell_counts", outcomes)
-	c.Set("counters", counters)
+	shown := map[string]int64{}
+	for k, v := range counters {
+		if !strings.HasPrefix(k, "denytotal|") && !strings.HasPrefix(k, "denywrong|") {
+			shown[k] = v
+		}
+	}
+	c.Set("counters", shown)
 	c.Set("cells", cells)
 	c.Set("shapes", []string{"deep: PP<-P<-D<-S<-G, B extends P, U", "flat: D<-S, U"})
 	c.Set("declared_types", len(declTypes))
